@@ -85,6 +85,12 @@ def run(chk):
     r3(chk)
     r4(chk)
     r5(chk)
+    # R6: the identity is about B as it is *applied*: each datum is B(mvr_i, cvr_i) of the same card with the contest's own
+    # use_style (C06.R4, aligned pairs)
+    from . import c06
+    chk.borrow(c06.r4, {"C06.R4": "C03.R6"})
+    chk.obs = [o for o in chk.obs if not (o.rule == "C03.R6" and o.key != "aligned-pairs")]
+
 
 
 def r3(chk):
